@@ -1,5 +1,5 @@
 SPEC = {
-    "lean_modules": ["AM.Props.Suppress", "AM.Props.C05"],
+    "lean_modules": ["AM.Props.Suppress", "AM.Props.C05", "AM.Props.C13", "AM.Props.C20"],
     "theorems": [
         "AM.Suppress.sent_lists_flush",
         "AM.Group.never_resolved_early", "AM.Group.partition_lists_all", "AM.Group.lookup_foldl_delStep",
@@ -7,13 +7,21 @@ SPEC = {
         "AM.Group.destroy_only_if_empty", "AM.Group.insert_refused_iff_destroyed", "AM.Group.insert_lands",
         "AM.Dedup.send_resolved_false_never_lists_resolved", "AM.Dedup.all_resolved_before_first_flush_sends_nothing",
         "AM.Dedup.resolved_listed_next_flush", "AM.Dedup.resolved_lost_when_entry_expired",
+        # when an alert ends is decided at ingestion: the end the sender announced, or receive time + resolve_timeout marked as a time-out
+        # (a time-out end yields to any later announced end; an announced end in the past resolves at once)
+        "AM.Ingest.batch_best_effort", "AM.Ingest.post_defaults", "AM.Ingest.timeout_end_pushed_forward", "AM.Ingest.explicit_past_end_resolves",
+        # what the receiver is told: every alert of the notification carries its own status (EndsAt against the instant of the notification,
+        # the end instant itself included), the same status the flush, the dedup stage and the log use
+        "AM.TemplateData.data_lists_exactly_batch", "AM.TemplateData.status_firing_iff_any",
     ],
     "engines": [
         {"name": "sys", "pkg": "./sys", "timeout_quick": 90, "search_cases": 6000},
         # a re-fire racing a resolve of the same alert: the group must end up with the version the provider stored (C14's engine)
         {"name": "putorder", "pkg": "./putorder", "search_cases": 400, "only": ["group_holds_stored_version"]},
         # a resolved update posted together with an invalid alert is stored all the same (C13's engine: best-effort batches)
-        {"name": "ingest", "pkg": "./ingest", "search_cases": 8000, "quick_cases": 1500, "only": ["batch_best_effort"]},
+        {"name": "ingest", "pkg": "./ingest", "search_cases": 8000, "quick_cases": 1500, "only": ["batch_best_effort", "post_defaults", "timeout_end_pushed_forward", "explicit_past_end_resolves"]},
+        # "reported ... only when true": the status the notification's template data gives each alert, an alert ending at this very instant included (C20's engine)
+        {"name": "tmpldata", "pkg": "./tmpldata", "search_cases": 8000, "quick_cases": 800, "only": ["data_lists_exactly_batch", "status_firing_iff_any"]},
     ],
     "rule": "random alert timelines (4 alerts in 2 groups: fire, heartbeat, explicit resolve, short time-outs, re-fire; silences created/expired) through the REAL mem.Alerts provider + Dispatcher + PipelineBuilder.New pipeline + nflog assembled as app/reloader.go does, under synctest virtual time; 1-2 integrations (send_resolved on/off) with scripted outcomes (ok / recoverable / unrecoverable / hang, latencies up to and beyond the flush deadline so that deliveries are in flight while alerts re-fire), log GC, dispatcher restarts (config reload); a recording stage observes every flush (tick, wall, alerts handed over, outcome, log entries); the driver predicts ticks, flush contents, sends, log entries, group deletion exactly (delivery instants are trace inputs) and evaluates the property predicates on the implementation's events; non-trivial = hits a tagged branch; distinct = distinct hash of the case's lines",
     "assumptions": [
